@@ -174,3 +174,42 @@ Section CoreQuote.
       unfold pure, name_quote in E. cbn in E. inversion E. reflexivity.
   Qed.
 End CoreQuote.
+
+(* ---- the full registry ---- *)
+From PushModel Require Import Proofs.FrameProofs2.
+
+Lemma fp_quote_only_by_quote_b fp :
+  forallb (fun e : string * mask => String.eqb (fst e) "NAME.QUOTE" || negb (m_quote (snd e))) fp = true ->
+  fp_quote_only_by_quote fp.
+Proof.
+  intros H. unfold fp_quote_only_by_quote. rewrite Forall_forall. rewrite forallb_forall in H.
+  intros e Hin. specialize (H e Hin). apply orb_prop in H as [H|H].
+  - left. now apply String.eqb_eq.
+  - right. now destruct (m_quote (snd e)).
+Qed.
+
+Lemma not_in_keys {B} (t : list (string * B)) k f :
+  existsb (String.eqb k) (map fst t) = false -> ~ In (k, f) t.
+Proof.
+  intros H Hin. apply (in_map fst) in Hin. cbn [fst] in Hin.
+  assert (E : existsb (String.eqb k) (map fst t) = true).
+  { apply existsb_exists. exists k. split; [exact Hin|apply String.eqb_refl]. }
+  congruence.
+Qed.
+
+Section FullQuote.
+  Context {FO : FloatOps}.
+  Lemma full_quote_kept : reg_quote_kept full_registry.
+  Proof.
+    apply (framed_quote_kept _ fp_all all_framed).
+    - apply fp_quote_only_by_quote_b. vm_compute. reflexivity.
+    - intros f Hin p w s w' s' E. unfold full_table, base_table in Hin.
+      apply in_app_or in Hin as [Hin|Hin]; [apply in_app_or in Hin as [Hin|Hin]|].
+      + unfold tbl_core, tbl_boolean, tbl_integer, tbl_float, tbl_name, tbl_code, tbl_exec, tbl_index, stack_family in Hin.
+        cbn [app] in Hin.
+        repeat (destruct Hin as [Hin|Hin]; [inversion Hin; subst; clear Hin|]); try contradiction.
+        unfold pure, name_quote in E. cbn in E. inversion E. reflexivity.
+      + exfalso. revert Hin. apply not_in_keys. vm_compute. reflexivity.
+      + exfalso. revert Hin. apply not_in_keys. vm_compute. reflexivity.
+  Qed.
+End FullQuote.
